@@ -41,8 +41,18 @@ NAMES = {
     "n_sp": "sp ace.txt", "n_url": "r#s%t&u+v;w.txt", "n_q": "q?m.txt", "n_pct": "p%41q.txt",
     "n_hi": "caf\udce9.txt", "n_u8": "ü.txt", "n_dots": "a.b.c.txt", "n_pict": "x.pict",
     "n_gzonly": "x.gz", "n_targz": "x.tar.gz",
+    # case-variant twins: the tables are case-SENSITIVE for encodings (.gz, .Z) and case-insensitive for types
+    "n_GZ": "SCAN.TXT.GZ", "n_Zc": "dump.tar.Z", "n_zl": "draft.tar.z",
 }
 QUICK_NAMES = ["n_txt", "n_html", "n_bin", "n_none", "n_gz", "n_tgz", "n_bz2", "n_up", "n_sp", "n_url", "n_q", "n_hi", "n_pict", "n_gzonly"]
+HIST_NAMES = {"quick": ["n_txt", "n_up", "n_gz", "n_GZ", "n_Zc", "n_zl", "n_bz2", "n_none", "n_html", "n_tgz"],
+              "thorough": ["n_txt", "n_up", "n_gz", "n_GZ", "n_Zc", "n_zl", "n_bz2", "n_none", "n_html", "n_tgz", "n_gzonly", "n_targz",
+                           "n_pict", "n_bin", "n_gif", "n_dots"]}
+HIST_FAMS = ["H", "SP"]
+LONG_NAMES = ["n_txt"]
+# path-length classes: raw bytes of the directory prefix (non-ASCII components, so the percent-encoded request is 3x as long)
+PLEN_RAW = {"p0": 0, "p1k": 1100, "p2k": 1800, "p4k": 3900}
+LONG_COMP = "\u00e9" * 100          # one directory component: 200 bytes raw, 600 bytes percent-encoded
 FAMS = ["G", "Gs", "GP", "GPs", "H", "Hs", "W", "GEM", "SP"]
 PROTO = {"G": "G", "Gs": "G", "GP": "GP", "GPs": "GP", "H": "H", "Hs": "H", "W": "W", "GEM": "GEM", "SP": "SP"}
 TLS = {"Gs", "GPs", "Hs", "GEM"}
@@ -60,7 +70,12 @@ CONSTANTS
   Fams = {%(fams)s}
   Lists = {%(lists)s}
   DecSizeStored = %(decsize)s
+  LineCap = "none"
+  LongOn = %(slices)s
+  HistOn = %(slices)s
   Known = {%(known)s}
+INVARIANT Delivered
+INVARIANT HistoryFree
 INVARIANT Loop
 INVARIANT BodyExact
 INVARIANT LenTruthful
@@ -128,14 +143,15 @@ def table_rows(names, enc_override="", mimefile=""):
     return json.loads(pr.stdout)
 
 
-def data_module(rows, altrows, decs, rb):
+def data_module(rows, altrows, decs, rb, names, histnames):
     toks = sorted(rows)
     arms = lambda rr: "\n            [] ".join('n = "%s" -> [type |-> "%s", enc |-> "%s"]' % (t, rr[t]["type"], rr[t]["enc"]) for t in toks)
     return ("---------------------------- MODULE MC_C04_Data ----------------------------\n"
-            "Names == {%s}\nRowShipped(n) == CASE %s\nRowAlt(n) == CASE %s\n"
+            "Names == {%s}\nLongNames == {%s}\nHistNames == {%s}\nHistFams == {%s}\nRowShipped(n) == CASE %s\nRowAlt(n) == CASE %s\n"
             "Row(l, n) == IF l = \"altenc\" THEN RowAlt(n) ELSE RowShipped(n)\nDecompressors == {%s}\nRealB == %d\n"
             "=============================================================================\n"
-            % (", ".join('"%s"' % t for t in toks), arms(rows), arms(altrows), ", ".join('"%s"' % d for d in sorted(decs)), rb))
+            % (", ".join('"%s"' % t for t in sorted(names)), ", ".join('"%s"' % t for t in LONG_NAMES),
+               ", ".join('"%s"' % t for t in sorted(histnames)), ", ".join('"%s"' % t for t in HIST_FAMS), arms(rows), arms(altrows), ", ".join('"%s"' % d for d in sorted(decs)), rb))
 
 
 # ---- gamma: contents ----------------------------------------------------------------------------
@@ -392,10 +408,20 @@ class Site:
             self.current = hl
         return self.worlds[hl]
 
-    def put(self, name, data):
+    def clear(self):
         for n in os.listdir(self.root):
-            os.unlink(os.path.join(self.root, n))
-        with self.envsub.REAL["open"](os.fsencode(os.path.join(self.root, name)), "wb") as fp:
+            q = os.path.join(self.root, n)
+            if os.path.isdir(q):
+                shutil.rmtree(q)
+            else:
+                os.unlink(q)
+
+    def put(self, name, data, clear=True):
+        if clear:
+            self.clear()
+        q = os.fsencode(os.path.join(self.root, name))
+        os.makedirs(os.path.dirname(q), exist_ok=True)
+        with self.envsub.REAL["open"](q, "wb") as fp:
             fp.write(data)
 
     def mock(self, hl, fam, method, sel):
@@ -491,10 +517,14 @@ def _run_file(job):
     row, rb, decs = (_CTX["altrows"] if hl == "altenc" else _CTX["rows"])[tok], _CTX["rb"], _CTX["decs"]
     data, lines = concretise(job["tokens"] if job.get("tokens") is not None else tokens_of(kind, n, rb), rep)
     isdec = job["dec"]
-    name = NAMES[tok]
+    plen = job.get("plen", "p0")
+    prefix = ""
+    while len(prefix.encode()) < PLEN_RAW[plen]:          # gamma for the path-length class: a deep tree of long names
+        prefix += LONG_COMP + "/"
+    name = prefix + NAMES[tok]
     site.put(name, gzip.compress(data, mtime=0) if isdec else data)
     init = {"n": n, "lines": lines, "row": row, "hl": hl, "decs": sorted(decs) if hl == "full" else [], "kind": kind,
-            "name": tok}
+            "name": tok, "plen": plen}
     traces = []
     path = os.path.join(site.root, name)
     for fam in fams:
@@ -514,13 +544,62 @@ def _run_file(job):
                 evs, extras = _events(site, hl, fam, "/" + name, data, rep, transport)
             finally:
                 site.envsub.ENV.open_hook = None
-            case = {"n": n, "kind": kind, "name": tok, "hl": hl, "fam": fam, "rep": rep, "transport": transport,
+            case = {"n": n, "kind": kind, "name": tok, "hl": hl, "fam": fam, "plen": plen, "request_line_bytes": len(wire(fam, "GET", "/" + name)), "rep": rep, "transport": transport,
                     "dec": isdec, "tokens": job.get("tokens"), "tls": fam in TLS, "needs_fd": isdec and (fam in TLS or fam == "W"), "sched": sched, "real_tls": transport == "real" and fam in TLS}
-            traces.append({"id": "%s/%s/%d/%s/%s/%s/r%d%s" % (hl, tok, n, kind, fam, transport, rep,
+            traces.append({"id": "%s/%s/%d/%s/%s/%s/r%d%s" % (hl, tok + ("@" + plen if plen != "p0" else ""), n, kind, fam, transport, rep,
                                                              ("/s" + "".join(map(str, sched)) if sched else "")
                                                              + ("/" + ",".join(job["tokens"]) if job.get("tokens") is not None else "")),
                            "init": init, "events": evs, "case": case, "extras": extras})
     return traces, site.short_reads[0] - reads0
+
+
+def _run_hist(job):
+    """One HISTORY in one fresh server process: this worker never serves anything itself, it forks a child per history;
+    the child (same state as right after start-up) serves `prev` (fetched or listed) and then `name` per family."""
+    site = _SITE
+    r, w = os.pipe()
+    pid = os.fork()
+    if pid == 0:
+        rc = 3
+        try:
+            os.close(r)
+            tok, prev, via, rb = job["name"], job["prev"], job["via"], _CTX["rb"]
+            data, lines = concretise(tokens_of("bin", job["n"], rb), 0)
+            site.put(NAMES[tok], data)
+            prior = []
+            if prev != "none":
+                site.put(NAMES[prev], b"other document\n", clear=False)
+                out, crashed, _log = site.mock("default", "H" if via == "fetch" else "G", "GET", "/" + NAMES[prev] if via == "fetch" else "/")
+                prior.append({"ev": "prior", "via": via, "name": prev, "answered": bool(out) and not crashed})
+            init = {"n": job["n"], "lines": lines, "row": _CTX["rows"][tok], "hl": "default", "decs": [], "kind": "bin", "name": tok,
+                    "plen": "p0"}
+            traces = []
+            for fam in job["fams"]:
+                evs, extras = _events(site, "default", fam, "/" + NAMES[tok], data, 0, "mock")
+                traces.append({"id": "hist/%s-%s>%s/%s" % (via, prev, tok, fam), "init": init, "events": prior + evs,
+                               "case": {"n": job["n"], "kind": "bin", "name": tok, "hl": "default", "fam": fam, "plen": "p0", "rep": 0,
+                                        "transport": "mock", "dec": False, "tokens": None, "tls": False, "needs_fd": False, "sched": [],
+                                        "real_tls": False, "prev": prev, "via": via},
+                               "extras": [None] * len(prior) + extras})
+            payload = json.dumps(traces).encode()
+            while payload:
+                k = os.write(w, payload)
+                payload = payload[k:]
+            rc = 0
+        finally:
+            os._exit(rc)
+    os.close(w)
+    buf = b""
+    while True:
+        d = os.read(r, 1 << 16)
+        if not d:
+            break
+        buf += d
+    os.close(r)
+    _pid, status = os.waitpid(pid, 0)
+    if status != 0 or not buf:
+        raise core.MachineryError("C04: history child failed for %r (status %r)" % (job, status))
+    return json.loads(buf), 0
 
 
 def real_size(n, b, rb):
@@ -547,25 +626,27 @@ def main(chk, replay=None):
 
 
 def _main(chk, replay, t, rb, rb_bound, cachelib):
-    tab = table_rows({k: NAMES[k] for k in t["names"]})
+    histnames = HIST_NAMES[chk.tier]
+    allnames = sorted(set(t["names"]) | set(histnames) | set(LONG_NAMES))
+    tab = table_rows({k: NAMES[k] for k in allnames})
     rows = tab["rows"]
     altmime = os.path.join(_BASE, "alt.mime.types")
     with open(os.path.join(core.REPO, "conf", "mime.types")) as fp, open(altmime, "w") as out:
         out.write(fp.read() + "\n" + ALT_MIME_LINE)
-    altrows = table_rows({k: NAMES[k] for k in t["names"]}, ALT_ENCODING, altmime)["rows"]
+    altrows = table_rows({k: NAMES[k] for k in allnames}, ALT_ENCODING, altmime)["rows"]
     decs = {"gzip"}                       # what World(handlers="full") configures: {'gzip': 'zcat'}
     consts = model_constants(chk)
-    data_tla = data_module(rows, altrows, decs, rb)
+    data_tla = data_module(rows, altrows, decs, rb, t["names"], histnames)
     q = lambda xs: ", ".join('"%s"' % x for x in xs)
     # 1. design model: every case with full reads; every read-size schedule on one name
-    cfg = MC_CFG % dict(consts, sched="full", kinds=q(t["kinds"]), fams=q(FAMS), lists=q(t["lists"]))
+    cfg = MC_CFG % dict(consts, sched="full", kinds=q(t["kinds"]), fams=q(FAMS), lists=q(t["lists"]), slices="TRUE")
     res = tlc.check_model("MC_C04", "MC_C04_run.cfg", extra_files={"MC_C04_run.cfg": cfg, "MC_C04_Data.tla": data_tla},
                           dump=True, coverage=True, timeout=1500)
-    cfg2 = MC_CFG % dict(consts, sched="all", kinds=q(["bin"]), fams=q(["G"]), lists=q(["default"]))
+    cfg2 = MC_CFG % dict(consts, sched="all", kinds=q(["bin"]), fams=q(["G"]), lists=q(["default"]), slices="FALSE")
     res2 = tlc.check_model("MC_C04", "MC_C04_loop_run.cfg", extra_files={"MC_C04_loop_run.cfg": cfg2, "MC_C04_Data.tla": data_tla},
                            dump=True, timeout=1500)
     res3 = tlc.check_model("MC_C04W", "MC_C04W_run.cfg", extra_files={"MC_C04W_run.cfg": W_CFG % t["wml"]}, dump=True, timeout=1500)
-    files, scheds, wfiles = {}, [], []
+    files, scheds, wfiles, hists = {}, [], [], {}
     try:
         if res3["inv_violations"]:
             chk.model_violation("MC_C04W", sorted(set(res3["inv_violations"])), res3["out"][-3000:])
@@ -579,7 +660,13 @@ def _main(chk, replay, t, rb, rb_bound, cachelib):
         for st in iter_dump_states(res["dump"], wanted={"phase", "c", "isdec"}):
             if st["phase"] == "done":
                 c = st["c"]
-                key = (c["n"], c["kind"], c["name"], c["hl"])
+                if c["via"] != "none" or (c["name"] in histnames and c["name"] not in t["names"]) or \
+                        (c["n"] == 1 and c["kind"] == "bin" and c["hl"] == "default" and c["plen"] == "p0" and c["name"] in histnames
+                         and c["fam"] in HIST_FAMS):
+                    hists.setdefault((c["name"], c["prev"], c["via"], c["n"]), []).append(c["fam"])
+                    if c["via"] != "none" or c["name"] not in t["names"]:
+                        continue
+                key = (c["n"], c["kind"], c["name"], c["hl"], c["plen"])
                 files.setdefault(key, {"dec": st["isdec"], "fams": []})["fams"].append(c["fam"])
         for st in iter_dump_states(res2["dump"], wanted={"phase", "c", "h"}):
             if st["phase"] == "done" and st["c"]["name"] == t["names"][0]:
@@ -593,15 +680,19 @@ def _main(chk, replay, t, rb, rb_bound, cachelib):
         with open(replay) as fp:
             c = json.load(fp)["case"]
         jobs.append(dict(n=c["n"], kind=c["kind"], name=c["name"], hl=c["hl"], rep=c.get("rep", 0), fams=[c["fam"]],
-                         transports=[c["transport"]], sched=c.get("sched") or [], dec=c["dec"], tokens=c.get("tokens")))
+                         transports=[c["transport"]], sched=c.get("sched") or [], dec=c["dec"], tokens=c.get("tokens"),
+                         plen=c.get("plen", "p0"), prev=c.get("prev", "none"), via=c.get("via", "none")))
+        hists = {}
     else:
         k = 0
-        for (n, kind, tok, hl), v in sorted(files.items()):
+        for (n, kind, tok, hl, plen), v in sorted(files.items()):
             for rep in t["reps"]:
                 k += 1
                 transports = ["mock"] + (["real"] if (v["dec"] or k % t["real_stride"] == 0) else [])
-                jobs.append(dict(n=real_size(n, 3, rb), kind=kind, name=tok, hl=hl, rep=rep, fams=sorted(v["fams"]),
-                                 transports=transports, sched=[], dec=v["dec"]))
+                if plen != "p0" and rep:
+                    continue
+                jobs.append(dict(n=real_size(n, 3, rb), kind=kind, name=tok, hl=hl, rep=rep, fams=sorted(set(v["fams"])),
+                                 transports=transports, sched=[], dec=v["dec"], plen=plen))
         for lines_, lastnl in sorted(wfiles, key=lambda x: json.dumps(x)):
             toks = []
             for i_, ln in enumerate(lines_):
@@ -616,12 +707,18 @@ def _main(chk, replay, t, rb, rb_bound, cachelib):
             jobs.append(dict(n=real_size(n, 3, rb), kind="bin", name=t["names"][0], hl="default", rep=0, fams=["G", "GP"],
                              transports=["mock"], sched=h, dec=False))
     _CTX.update(rows=rows, altrows=altrows, altmime=altmime, rb=rb, decs=decs)
+    hjobs = [dict(name=nm, prev=pv, via=via, n=n_, fams=sorted(set(fams_)), hl="default")
+             for (nm, pv, via, n_), fams_ in sorted(hists.items())]
+    if replay and jobs[0].get("prev", "none") != "none":
+        hjobs, jobs = [dict(name=jobs[0]["name"], prev=jobs[0]["prev"], via=jobs[0]["via"], n=jobs[0]["n"], fams=jobs[0]["fams"], hl="default")], []
     jobs_main = [j for j in jobs if j["hl"] != "altenc"]
     jobs_alt = [j for j in jobs if j["hl"] == "altenc"]
     results = cachelib.pool_map(_run_file, jobs_main, _init_worker) if jobs_main else []
     if jobs_alt:
         results += cachelib.pool_map(_run_file, jobs_alt, _init_worker_alt, procs=min(4, int(os.environ.get("VERIF_PROCS") or 16)))
-    jobs = jobs_main + jobs_alt
+    if hjobs:            # histories: each in a process of its own, forked from a worker that has served nothing
+        results += cachelib.pool_map(_run_hist, hjobs, _init_worker)
+    jobs = jobs_main + jobs_alt + hjobs
     traces = [tr for trs, _n in results for tr in trs]
     short_reads = sum(n_ for _trs, n_ in results)
     if not replay and scheds and short_reads == 0:
@@ -635,13 +732,18 @@ def _main(chk, replay, t, rb, rb_bound, cachelib):
             raise core.MachineryError("C04: trace machinery: %s %s" % (tr["id"], rj["clause"]))
         e = tr["events"][rj["at"] - 2]
         key = "%s|%s|%s" % (rj["clause"], tr["id"], e["method"])
+        if tr["case"].get("plen", "p0") != "p0":
+            key = key.replace(LONG_COMP, "")
         chk.violation(key, rj["clause"], dict(tr["case"], method=e["method"]),
                       {"event": {k_: v_ for k_, v_ in e.items() if k_ != "wml"}, "wml_head": e["wml"][:3],
                        "extras": tr["extras"][rj["at"] - 2], "lines_head": tr["init"]["lines"][:3]})
     chk.note_drift(tv["drift"])
-    fetches = [e for tr in traces for e in tr["events"]]
-    nontrivial = len({tr["id"] for tr in traces if any(e["st"] == "ok" and e["method"] == "GET" and (e["eq"] or e["wmlframe"])
+    fetches = [e for tr in traces for e in tr["events"] if e["ev"] == "fetch"]
+    nontrivial = len({tr["id"] for tr in traces if any(e["ev"] == "fetch" and e["st"] == "ok" and e["method"] == "GET" and (e["eq"] or e["wmlframe"])
                                                        for e in tr["events"])})
+    priors = [e for tr in traces for e in tr["events"] if e["ev"] == "prior"]
+    if priors and not all(e["answered"] for e in priors):
+        raise core.MachineryError("C04: a history's first request was not answered: the history was not established")
     if not replay and nontrivial == 0:
         raise core.MachineryError("C04: no document was delivered at all")
     wml = sum(1 for e in fetches if e["wmlframe"])
@@ -666,6 +768,9 @@ def _main(chk, replay, t, rb, rb_bound, cachelib):
         "constants_bound": {"block_size": rb, "from_code": rb_bound, "default_mime": tab["default"], "rows": rows,
                             "rows_alternative_config": altrows, "alternative_config": {"encoding": ALT_ENCODING, "mime.types": "conf/mime.types + application/gzip gz"}},
         "alternative_config_traces": sum(1 for tr in traces if tr["case"]["hl"] == "altenc"),
+        "history_traces": sum(1 for tr in traces if tr["case"].get("prev", "none") != "none"),
+        "long_path_traces": sum(1 for tr in traces if tr["case"].get("plen", "p0") != "p0"),
+        "longest_request_line_bytes": max([tr["case"].get("request_line_bytes", 0) for tr in traces] or [0]),
         "model_constants": consts, "trace_states": tv["states"],
         "bindings": ["B1 block size, MIME rows, decompressors", "B2 every done state of MC_C04 as a real file", "B3 TraceC04"],
     }
